@@ -33,6 +33,10 @@ func init() { propFactories["C19"] = newC19 }
 func (p *c19) ID() string { return "C19" }
 
 var c19Corpus = []string{
+	// regular-expression literals with several flags, seen as text
+	"x = /^h.*l$/im; hv(string(x)); return S ~= x;",
+	"return string(/a+/mi) + string(/a+/im) + string(/b/i) + string(/c/m);",
+	"r = [/x/im, /y/mi, /z/imim]; foreach v in r { hv(v); } return len(r);",
 	// several functions with the same body, with constants to fold
 	"function a(x) { return x + 2 * 3 + 4; } function b(x) { return x + 2 * 3 + 4; } function c(x) { return x + 2 * 3 + 4; } return a(1) + b(2) + c(3);",
 	"function p1() { if (1 + 1 == 2) { return 6 * 7; } return 0; } function p2() { if (1 + 1 == 2) { return 6 * 7; } return 0; } function p3() { if (1 + 1 == 2) { return 6 * 7; } return 0; } function p4() { if (1 + 1 == 2) { return 6 * 7; } return 0; } return p1() + p2() + p3() + p4();",
